@@ -98,23 +98,23 @@ func vC16Addr(i int) ma.Multiaddr {
 }
 
 type vC16CrawlResult struct {
-	sc        vC16CrawlScenario
-	ids       []peer.ID
-	idx       map[peer.ID]int
-	self      peer.ID
-	kind      map[peer.ID]string
-	seeds     []*peer.AddrInfo
-	seedHasAd map[peer.ID]bool // some seed entry of this id had an address (own or host peerstore) when Run started
-	seedEntries map[peer.ID]int // number of seed entries with an address, per id
+	sc          vC16CrawlScenario
+	ids         []peer.ID
+	idx         map[peer.ID]int
+	self        peer.ID
+	kind        map[peer.ID]string
+	seeds       []*peer.AddrInfo
+	seedHasAd   map[peer.ID]bool // some seed entry of this id had an address (own or host peerstore) when Run started
+	seedEntries map[peer.ID]int  // number of seed entries with an address, per id
 	seedUsable  int
-	cbs       []vC16Callback
-	log       []vsim.Event
-	dials     []vsim.DialEvent
-	start     time.Time
-	end       time.Time
-	cancelVT  time.Time
-	cancelled bool
-	lastEvent time.Time
+	cbs         []vC16Callback
+	log         []vsim.Event
+	dials       []vsim.DialEvent
+	start       time.Time
+	end         time.Time
+	cancelVT    time.Time
+	cancelled   bool
+	lastEvent   time.Time
 }
 
 func (res *vC16CrawlResult) name(p peer.ID) string {
@@ -550,7 +550,7 @@ func vC16Keys(m map[peer.ID]bool) []peer.ID {
 
 func TestVerif_C16_crawl(t *testing.T) {
 	vh.Run(t, vh.Spec{Prop: "C16", Unit: "crawl", Quick: 600, Thorough: 20000, CostMs: 10,
-		Rule: "PRNG digraphs of 1-200 simulated peers (thorough up to 700): out-degree 0-60 with back edges (cycles), unreachable islands, referrals to strangers; 0-60% peers dead / failing or timing out at connect / failing, silent or empty at the n-th of the 16 FIND_NODE requests / answering nothing; 0-30% peers without address; 1-5 seeds incl. ghost, addressless and peerstore-only seeds; duplicate seeds in a dedicated 1/7 of the cases; parallelism 1-200; 30% cancelled (before the call or at a PRNG instant); DefaultCrawler.Run in virtual time; oracle = closure over reported successes + wire log; non-trivial = uncancelled and some non-seed peer was queried; distinct by (shape, behaviour mix, callback order)",
+		Rule:    "PRNG digraphs of 1-200 simulated peers (thorough up to 700): out-degree 0-60 with back edges (cycles), unreachable islands, referrals to strangers; 0-60% peers dead / failing or timing out at connect / failing, silent or empty at the n-th of the 16 FIND_NODE requests / answering nothing; 0-30% peers without address; 1-5 seeds incl. ghost, addressless and peerstore-only seeds; duplicate seeds in a dedicated 1/7 of the cases; parallelism 1-200; 30% cancelled (before the call or at a PRNG instant); DefaultCrawler.Run in virtual time; oracle = closure over reported successes + wire log; non-trivial = uncancelled and some non-seed peer was queried; distinct by (shape, behaviour mix, callback order)",
 		Clauses: []string{"one-outcome", "queried-once", "contacted-then-reported", "success-iff-answered", "success-lists-answers", "failure-iff-failed", "reachable-all-queried", "only-reachable-queried", "returns-after-last-event", "returns-after-cancel", "returns-within-budget", "addressless-seed-skipped"}},
 		func(c *vh.Case) {
 			sc := vC16GenCrawl(c)
